@@ -123,7 +123,7 @@ Proof. exact by_value_positions. Qed.
 
 (* ---- tie to the current source: regenerated on every run by tools/ga2coq (coq/gen) ---- *)
 From Coq Require Import String.
-From GA Require Import Guards GuardTie.
+From GA Require Import Guards GuardTieViews GuardTieTransmute.
 From GAGen Require Import GenGuards GenConstFns.
 Local Open Scope Z_scope.
 
@@ -168,7 +168,7 @@ Theorem C02_source_const_transmute : forall a b,
   fails_by_panic const_transmute_guard = true.
 Proof. exact tie_const_transmute. Qed.
 
-From GA Require Import Deleg DelegTie.
+From GA Require Import Deleg.
 From GAGen Require Import GenDeleg.
 Local Open Scope string_scope.
 (* Deref / DerefMut / Borrow / AsRef to [T], as they stand in the source now, are exactly
@@ -180,12 +180,12 @@ Theorem C02_source_view_delegations :
   lookup "BorrowMut<[T]>::borrow_mut" gen_delegations = Some (DView (VAsMutSlice "self")) /\
   lookup "AsRef<[T]>::as_ref" gen_delegations = Some (DView (VAsSlice "self")) /\
   lookup "AsMut<[T]>::as_mut" gen_delegations = Some (DView (VAsMutSlice "self")).
-Proof. rewrite !tie_deleg_of. repeat split. Qed.
+Proof. repeat split. Qed.
 
 (* from_array / into_array (by value: the size-checked const_transmute) and AsRef / AsMut<[T; U]>
    (a transmute of the reference) as they stand in the source now (coq/gen/GenSigs.v); fourteen
    functions of lib.rs / impls.rs / sequence.rs have a body that is one reinterpretation, no more *)
-From GA Require Import SigTie.
+From GA Require Import SigDefs.
 From GAGen Require Import GenSigs.
 Local Open Scope string_scope.
 Theorem C02_source_array_casts :
@@ -202,13 +202,13 @@ Theorem C02_source_tuple_bodies :
   gen_tuple_bodies =
   ("let ($ ($ t ,) *) = tuple ; GenericArray :: from_array ([$ ($ t ,) *])",
    "let [$ ($ t) ,*] = array . into_array () ; ($ ($ t ,) *)").
-Proof. exact tie_tuple_bodies. Qed.
+Proof. reflexivity. Qed.
 
 
 (* ---- T1: the one-expression bodies this property's code consists of besides the modelled core, as they stand
         in the source now (coq/gen/GenSigs.v gen_thin_bodies) ---- *)
 From Coq Require Import String.
-From GA Require Import SigTie.
+From GA Require Import SigDefs.
 From GAGen Require Import GenSigs.
 Local Open Scope string_scope.
 
@@ -245,4 +245,4 @@ Theorem C02_source_slice_casts :
   small_of "GenericArray" "from_mut_slice" =
     Some ["assert ! (slice . len () == N :: USIZE , ""slice.len() != N in GenericArray::from_mut_slice"") ;";
           "unsafe { & mut * (slice . as_mut_ptr () as * mut GenericArray < T , N >) }"].
-Proof. exact tie_slice_casts. Qed.
+Proof. repeat split. Qed.
